@@ -71,7 +71,22 @@ def run(ctx):
     # FIRST failure fails the whole array: the collected value is a Result whose Ok payload becomes the array (no filter/flat_map that drops items)
     ARR = re.compile(r"Result::Ok\(CanonicalJsonValue::Array\(Iterator::collect\(Iterator::map\(IntoIterator::into_iter\(val\.Array\.0\), "
                      r"(?:fn\[(?:core::convert::TryInto::try_into|core::convert::TryFrom::try_from|[^\]]*CanonicalJsonValue[^\]]*::try_from)\]|closure\[[^\]]+\](?:\{.*\})?)\)\)\.Ok\.0\)\)")
-    ctx.check(bool(arr) and all(ARR.fullmatch(D.show(p.ret)) is not None for p in arr),
+    def loop_form(p):
+        """`for item in vec { items.push(Self::try_from(item)?) }`: every element yielded on the path is pushed as the Ok payload of its conversion."""
+        if not re.fullmatch(r"Result::Ok\(CanonicalJsonValue::Array\(Vec::(?:new\(\)|with_capacity\(.*\))\)\)", D.show(p.ret)):
+            return False
+        tv = U.true_variants(p)
+        elems = sorted(s_ + ".Some.0" for s_, v in tv.items() if re.match(r"^Iterator::next\(IntoIterator::into_iter\(val\.Array\.0\)\)", s_) and v == "Some")
+        pushed = [U.shows(e[1])[1] for e in p.effects if e[0].endswith("Vec::<T, A>::push") or e[0].endswith("::push")]
+        conv = [rf"(?:TryInto::try_into|TryFrom::try_from|(?:\w+::)*try_from)\({re.escape(x)}\)" for x in elems]
+        if len(pushed) != len(elems) or not all(re.fullmatch(c_ + r"\.Ok\.0", v_) for c_, v_ in zip(conv, sorted(pushed))):
+            return False
+        return all(any(re.fullmatch(c_, k) and v == "Ok" for k, v in tv.items()) for c_ in conv)
+    loop_arr = [p for p in arr if loop_form(p)]
+    # ... and in the loop form a failed conversion ends the function with that error (no path carries on after an Err)
+    conv_err = [p for p in paths if any(re.search(r"try_(?:from|into)\(Iterator::next\(IntoIterator::into_iter\(val\.Array\.0\)\)", k) and v == "Err" for k, v in U.true_variants(p).items())]
+    loop_ok = not loop_arr or (bool(conv_err) and all(p.kind == "ret" and U.is_err(p.ret) for p in conv_err))
+    ctx.check(bool(arr) and loop_ok and all(ARR.fullmatch(D.show(p.ret)) is not None or p in loop_arr for p in arr),
               "C01.numbers", "C01.numbers:array-elements", w.where(f),
               bad_msg=f"array elements are not all converted with the fallible conversion, failing the array on the first error: {[D.show(p.ret)[:160] for p in arr][:1]}")
     objp = [p for p in paths if p.kind == "ret" and U.is_ok(p.ret) and "CanonicalJsonValue::Object(" in D.show(p.ret)]
